@@ -2202,6 +2202,8 @@ class _Simu(_IObserver, _params.Updatable, ABC):
 
     def Bc_Init(self) -> None:
         """Initializes Dirichlet, Neumann and Lagrange boundary conditions"""
+        # the matrix system is sized for the Lagrange multipliers, removing the conditions must update it
+        hadLagrange = len(getattr(self, "_Simu__Bc_Lagrange", [])) > 0
         # DIRICHLET
         self.__Bc_Dirichlet: list[BoundaryCondition] = []
         """Dirichlet conditions list[BoundaryCondition]"""
@@ -2213,6 +2215,8 @@ class _Simu(_IObserver, _params.Updatable, ABC):
         """Lagrange conditions list[BoundaryCondition]"""
         self.__Bc_Display: list[Union[BoundaryCondition, LagrangeCondition]] = []
         """Boundary conditions for display list[BoundaryCondition]"""
+        if hadLagrange:
+            self.Need_Update()
 
     @property
     def Bc_Dirichlet(self) -> list[BoundaryCondition]:
